@@ -1,6 +1,6 @@
 (* Properties_C16.v — C16: sliding-window statistics and ring buffers reflect exactly the last W items. *)
 From Coq Require Import ZArith List Bool Arith Reals Lia Lra.
-From Romea Require Import Num NumR OnlineStatsModel OnlineStatsProofs StatsSem SrcTieC16 GridMapFloat OnlineStatsFloat.
+From Romea Require Import Num NumR OnlineStatsModel OnlineStatsProofs StatsSem SrcTieC16 GridMapFloat OnlineStatsFloat OnlineStatsFloatCode.
 From Romea.gen Require Import SrcStats.
 Import ListNotations.
 
